@@ -130,7 +130,7 @@ def path_conditions(fn, target, start_block=None, limit=4000):
     count = [0]
     complete = [True]
 
-    from .cfg import eval3
+    from .cfg import eval3, implied_atoms
 
     def rec(b, conds, visited):
         if count[0] > limit:
@@ -156,8 +156,8 @@ def path_conditions(fn, target, start_block=None, limit=4000):
                 if known is not None and known != side:
                     continue            # this side contradicts what the path already decided (join of a logical expression)
                 core, neg = X.strip_bool(B.cond)
-                c = (core, side ^ neg)
-                rec(s, conds + [c], visited | {s})
+                extra = [c for c in implied_atoms(B.cond, side, facts) if c[0].id != core.id]
+                rec(s, conds + [(core, side ^ neg)] + extra, visited | {s})
             else:
                 rec(s, conds, visited | {s})
 
@@ -212,3 +212,47 @@ def result_var(node):
             return ("expr", p)
         return ("discarded", None)
     return ("expr", p)
+
+
+# ---- small propositional evaluation of branch conditions (atoms = non-logical sub-conditions, identified by text) ----
+def formula_atoms(n, out=None):
+    out = [] if out is None else out
+    core, neg = X.strip_bool(n)
+    if core is None:
+        return out
+    if core.k == "BinaryOperator" and core.op in ("&&", "||"):
+        formula_atoms(core.children[0], out)
+        formula_atoms(core.children[1], out)
+    else:
+        t = X.show(core)
+        if t not in [a[0] for a in out]:
+            out.append((t, core))
+    return out
+
+
+def formula_eval(n, assign):
+    core, neg = X.strip_bool(n)
+    if core.k == "BinaryOperator" and core.op == "&&":
+        v = formula_eval(core.children[0], assign) and formula_eval(core.children[1], assign)
+    elif core.k == "BinaryOperator" and core.op == "||":
+        v = formula_eval(core.children[0], assign) or formula_eval(core.children[1], assign)
+    else:
+        v = assign[X.show(core)]
+    return bool(v) ^ neg
+
+
+def path_models(conds):
+    """All truth assignments of the atoms occurring in a path's conditions under which the path is taken."""
+    import itertools
+    atoms = []
+    for core, t in conds:
+        formula_atoms(core, atoms)
+    names = [a[0] for a in atoms]
+    if len(names) > 12:
+        return None, atoms
+    out = []
+    for vals in itertools.product((False, True), repeat=len(names)):
+        assign = dict(zip(names, vals))
+        if all(formula_eval(core, assign) == t for core, t in conds):
+            out.append(assign)
+    return out, atoms
